@@ -11,7 +11,7 @@ META = {
             "cross-checks the encoding and replays counterexamples.",
     "note": "A-float: finite floats are exact reals (no rounding/overflow); numpy semantics of + - * / ** log sqrt sum mean isnan isreal all on NaN/inf are the engine's "
             "models (validated by the sweep); sums are uninterpreted with extensionality (lemma assumed); CC/Mock: inv_cov = 1/yerr^2 is established by the constructors (region `self.Hfid = .. self.inv_cov = ..` verified: vectors of the file's length, in file order, xvar = column + 1).",
-    "technique": "contract-based deductive verification (AST->VC->SMT over an ExtReal encoding) + runtime sweep of the real classes",
+    "technique": "contract-based deductive verification of the five negloglike / get_pred methods and of the constructors' data region (AST->VC->SMT over an ExtReal encoding) + frame obligation on numpy's error state + runtime sweep of the real classes",
 }
 CHECKER = "./bin/check C09 (pyvc on esr/fitting/likelihood.py -> z3)"
 
